@@ -17,7 +17,7 @@ RULE = ('fault enumeration over valid transcripts T1 minimal, T2 host-key probes
         'DEBUG/IGNORE interleavings, 0-5 pre-banner lines, 1-byte segmentation and two-segment splits, seeded random byte mutations.  Each case is one real audit with -t 1 under the socket monitor.  Oracle: status in {0,1,2,3} and no traceback; '
         'every blocking receive ran under the configured finite timeout, timeouts <= 4 x connections, CPU <= 5 s + 0.5 s x connections; if the first connection carried a valid banner and a strictly decodable KEXINIT the report is complete '
         '(names equal the KEXINIT), otherwise status 1 and no algorithm lines.  Non-trivial: the fault was applied (peer log) and the monitor saw >= 1 receive; distinct = distinct (transcript, connection, message, operator, parameters)')
-REQUIRED = {'default_timeout_runs': 4, 'rate_check_runs': 5, 'faults_applied': 300, 'recv_events': 2000, 'expected_report': 100, 'expected_error': 100, 'stall_cases': 10, 'probe_phase_faults': 100}
+REQUIRED = {'fallback_refused_again': 2, 'default_timeout_runs': 4, 'rate_check_runs': 5, 'faults_applied': 300, 'recv_events': 2000, 'expected_report': 100, 'expected_error': 100, 'stall_cases': 10, 'probe_phase_faults': 100}
 ASSUMPTIONS = ['"terminates" is decided as bounded progress on logical measures (timeouts in force, number of timed-out receives, CPU), never on wall-clock; a watchdog expiry without a deterministic hang signature is inconclusive',
                'well-formed first connection = identification line ending in LF, then zero or more well-framed DEBUG/IGNORE packets, then a well-framed packet of type 20 that the strict decoder accepts (exact trailer)',
                'moduli and keys in generated replies are at most 16384 bits']
@@ -94,6 +94,8 @@ def cases(tier, seed):
     for beh in RATE_BEHAVIOURS:
         for rep_ in range(1 if tier == 'quick' else 4):
             cs.append({'T': 'T7', 'op': 'rate', 'beh': beh, 'after': [0, 1, 3, 10][rep_]})
+    for bn in ('SSH-1.5-OpenSSH_1.2.3', 'SSH-1.99-OpenSSH_3.4p1', 'SSH-1.5-Cisco-1.25'):
+        cs.append({'T': 'T5', 'op': 'differ-again', 'banner': bn})
     # the documented default timeout (5 s) when -t is not given: client audit and server audit against a peer that says nothing / stops after its banner
     for T, op, at in (('T6', 'stall_before', 'banner'), ('T6', 'stall_before', 'kexinit'), ('T1', 'stall_before', 'banner'), ('T1', 'stall_before', 'kexinit')):
         cs.append({'T': T, 'op': op, 'conn': 0, 'at': at, 'default_timeout': True})
@@ -398,9 +400,29 @@ def run_rate(c):
     return {'violations': viol, 'counters': counters, 'nontrivial': True, 'sample': {'case': c, 'status': r.status, 'connections': nconn, 'cpu': round(r.cpu, 2)}, 'sample_kind': 'T7' + beh}
 
 
+def run_differ(c):
+    """A peer that answers every connection - the SSH-2 attempt and the SSH-1 fall-back alike - with its banner and 'Protocol major versions differ.': one fall-back, a reported error, a documented status."""
+    script = {'banner': c['banner'], 'proto': 1}
+    r, p = audit.audit_server(script, ['-n', '-t', '2'], monitors=['sockets'], base=['--skip-rate-test'], timeout=60)
+    viol, counters = [], {'fallback_refused_again': 1, 'recv_events': len(r.mon('recv'))}
+    if r.timed_out:
+        return {'verdict': 'inconclusive', 'why': 'watchdog', 'case': c}
+    txt = r.out + r.err
+    if r.status not in (0, 1, 2, 3):
+        frames = re.findall(r'File "[^"]*/ssh_audit/(\w+)\.py", line \d+, in (\w+)', txt)
+        viol.append(_v('C09/uncaught:fallback-refused-again@%s' % ('%s.%s' % frames[-1] if frames else '?'), 'the audit ended through an uncaught exception / the internal error status', status=r.status, tail=txt[-400:]))
+    elif r.status != 1 or report.parse_text(r.out).has_alg_lines():
+        viol.append(_v('C09/report-for-malformed-handshake:fallback-refused-again', 'no connection delivered algorithm lists, yet the audit shows a report / a findings status', status=r.status, tail=r.out[-300:]))
+    if len(p.conns) > 2:
+        viol.append(_v('C09/fallback-repeated', 'the SSH-1 fall-back was taken more than once', connections=len(p.conns)))
+    return {'violations': viol, 'counters': counters, 'nontrivial': len(p.conns) >= 1, 'sample': {'case': c, 'status': r.status, 'connections': len(p.conns)}, 'sample_kind': 'differ'}
+
+
 def run_case(c):
     if c['op'] == 'rate':
         return run_rate(c)
+    if c['op'] == 'differ-again':
+        return run_differ(c)
     s = build(c)
     T = c['T']
     mon = ['sockets']
